@@ -138,6 +138,16 @@ func (o *authOracle) c09(e *Env, si *StepInfo) {
 				}
 			}
 			why = "completion of an order that no authorized request created"
+			// ... and whose signer still has the right at the moment the version is written: an owner's
+			// revocation takes effect for an update that is still in flight
+			if mc, isC := si.Built.Msgs[0].(*saotypes.MsgComplete); ok && isC && had && what != "lifetime" {
+				if oi := t.Orders[mc.OrderId]; oi != nil && oi.DataId == id && oi.SignerDid != "" && oi.Op != 3 {
+					if oi.SignerDid != pm.Owner && !inList(pm.ReadwriteDids, oi.SignerDid) {
+						ok = false
+						why = fmt.Sprintf("order %d was signed by %s, whose read-write access the owner has revoked before the version was written", mc.OrderId, short(strings.TrimPrefix(oi.SignerDid, "did:key:")))
+					}
+				}
+			}
 		case "cancel":
 			// automatic rollback of a cancelled update (who may cancel is C10's question)
 			ok = what == "status" || what == "commit" || what == "order-link" || what == "lifetime" || what == "existence(removed)" || what == "cid"
